@@ -117,3 +117,13 @@ package git
 //@ modifies currentFileChangeMap, currentFileChanges
 //@ ensures currentFileChangeMap != nil
 //@ ensures len(currentFileChanges) >= len(old(currentFileChanges))
+
+// ---- C15: the per-file history table (age, authors, revisions): every entry has its own author and revision sets
+//@ spec InfoOK(m map[string]ProjectInfo) bool := forall f string :: {m[f]} (f in m) ==> m[f].Authors != nil && m[f].Revs != nil
+
+//@ func BuildCommitMessageMap
+//@ requires infos != nil && InfoOK(infos)
+//@ modifies infos
+//@ ensures result != nil && InfoOK(result)
+//@ loop 1 invariant infos != nil && InfoOK(infos)
+//@ loop 2 invariant infos != nil && InfoOK(infos)
